@@ -61,6 +61,26 @@ impl<'t, 'a> MutGen<'t, 'a> {
                 let (e, _) = gen_number_expr(self.t);
                 vec![put(e, x)]
             }
+            // an array that came out of `cut` and had elements overwritten since (with strings, now and then with a number):
+            // whatever a split remembers about its pieces must not outlive a write
+            2 if self.t.chance(1, 5) => {
+                self.labels.insert("array_from_cut_then_overwritten".into());
+                let pieces = 2 + self.t.pick(4);
+                let text: Vec<String> = (0..pieces).map(|_| gen_string(self.t).replace(',', ";")).collect();
+                let mut out = vec![put(strlit(&text.join(",")), x), Stmt::Mutation { op: MutOp::Cut, operand: pvar(x), dest: None, param: Some(strlit(",")) }];
+                for _ in 0..self.t.pick(3) {
+                    let i = self.t.pick(pieces + 1);
+                    let e = if self.t.chance(1, 3) { num(5.0) } else { strlit(&gen_string(self.t)) };
+                    out.push(Stmt::Assign { dest: Lhs::Subscript(Box::new(pvar(x)), Box::new(Primary::Lit(Lit::Num(i as f64)))), value: vec![e], op: None });
+                }
+                if self.t.chance(1, 3) {
+                    // a copy taken before a later write shares nothing with it
+                    let y = self.vars[5].clone();
+                    out.push(put(var(x), &y));
+                    out.push(Stmt::Assign { dest: Lhs::Subscript(Box::new(pvar(x)), Box::new(Primary::Lit(Lit::Num(0.0)))), value: vec![num(9.0)], op: None });
+                }
+                out
+            }
             // array of strings (sometimes with other kinds, sometimes with keys)
             2 => {
                 let mut out = vec![put(lit(Lit::Mysterious), x)];
